@@ -12,13 +12,15 @@ fn fwd(op: &Op, _ctx: &dyn Context, operands: &mut dyn CoordinateSet) -> usize {
     let x_0 = op.params.x(0);
     let y_0 = op.params.y(0);
     let k_0 = op.params.k(0);
+    // Northings are counted from the latitude of origin
+    let m_0 = ellps.meridian_latitude_to_distance(lat_0);
 
     let mut successes = 0_usize;
     let n = operands.len();
     for i in 0..n {
         let mut coord = operands.get_coord(i);
 
-        let lat = coord[1] + lat_0;
+        let lat = coord[1];
         let (s, c) = lat.sin_cos();
         let cc = c * c;
         let ss = s * s;
@@ -41,7 +43,8 @@ fn fwd(op: &Op, _ctx: &dyn Context, operands: &mut dyn CoordinateSet) -> usize {
         let m = ellps.meridian_latitude_to_distance(lat);
         let znos4 = z * N * dlon * s / 4.;
         let ecc = 4. * eps * cc;
-        coord[1] = y_0 + k_0 * (m + N * theta_2 + znos4 * (9. + ecc + oo * (20. * cc - 11.)));
+        coord[1] =
+            y_0 + k_0 * (m - m_0 + N * theta_2 + znos4 * (9. + ecc + oo * (20. * cc - 11.)));
         operands.set_coord(i, &coord);
         successes += 1;
     }
@@ -60,6 +63,8 @@ fn inv(op: &Op, _ctx: &dyn Context, operands: &mut dyn CoordinateSet) -> usize {
     let x_0 = op.params.x(0);
     let y_0 = op.params.y(0);
     let k_0 = op.params.k(0);
+    // Northings are counted from the latitude of origin
+    let m_0 = ellps.meridian_latitude_to_distance(lat_0);
 
     let mut successes = 0_usize;
     let n = operands.len();
@@ -67,7 +72,7 @@ fn inv(op: &Op, _ctx: &dyn Context, operands: &mut dyn CoordinateSet) -> usize {
         let mut coord = operands.get_coord(i);
         // Footpoint latitude, i.e. the latitude of a point on the central meridian
         // having the same northing as the point of interest
-        let lat = ellps.meridian_distance_to_latitude((coord[1] - y_0) / k_0);
+        let lat = ellps.meridian_distance_to_latitude((coord[1] - y_0) / k_0 + m_0);
         let (s, c) = lat.sin_cos();
         let t = s / c;
         let cc = c * c;
@@ -80,7 +85,7 @@ fn inv(op: &Op, _ctx: &dyn Context, operands: &mut dyn CoordinateSet) -> usize {
 
         // Latitude
         let xet = xx * xx * eps * t / 24.;
-        coord[1] = lat_0 + (1. + cc * eps) * (theta_5 - xet * (9. - 10. * cc)) - eps * cc * lat;
+        coord[1] = (1. + cc * eps) * (theta_5 - xet * (9. - 10. * cc)) - eps * cc * lat;
 
         // Longitude
         let approx = lon_0 + theta_4;
